@@ -1719,3 +1719,6 @@ VARIANTS = [
      "edits": [(PF, "    num_expected_posargs = len(self.signature.param_names)\n    if len(args.posargs) > num_expected_posargs and",
                 "    positional_names = tuple(self.signature.param_names)\n    num_expected_posargs = len(positional_names)\n    if num_expected_posargs < len(args.posargs) and")]},
 ]
+
+from rules.c13_kwdefaults import EXPLANATION_FOR_C13 as _E23
+EXPLANATION += _E23
